@@ -26,7 +26,7 @@ def witnesses(tier, seed):
     for t in ('f64', 'f32'):
         T = lambda d: tensor_t(t, d)
         # matrix products, with every assignment operator and with the destination on the right-hand side
-        for (M, K, N) in [(2, 2, 2), (3, 3, 3), (4, 4, 4), (3, 4, 5), (5, 3, 2), (8, 8, 8), (2, 7, 9)] + ([] if quick else [(5, 5, 5), (9, 4, 3), (1, 6, 4), (6, 1, 6), (16, 3, 5)]):
+        for (M, K, N) in [(2, 2, 2), (3, 3, 3), (4, 4, 4), (3, 4, 5), (5, 3, 2), (8, 8, 8), (2, 7, 9), (4, 1, 3), (1, 5, 4)] + ([] if quick else [(5, 5, 5), (9, 4, 3), (1, 6, 4), (6, 1, 6), (16, 3, 5)]):
             P = [('a', [M, K]), ('b', [K, N]), ('d', [M, N])]
             # inner extent 1: the compound forms go through the gemm kernel, which starts from a zero accumulator; 0 + a*b and a*b differ in
             # the sign of a zero result only, which 'equal within rounding' does not distinguish (thorough-tier false alarm, DESIGN 11.4)
